@@ -86,8 +86,12 @@ inductive Site where
   | paramDuplicate
   /-- mod.rs:309 `root_parameters.unwrap()`. -/
   | rootParametersUnwrap
-  /-- mod.rs:399/405 `ir_vertices[&vid]` in `make_duplicated_output_names_error` — **N-3**. -/
+  /-- mod.rs:399/405 `ir_vertices[&vid]` in `make_duplicated_output_names_error` called from
+  `make_query_component` (mod.rs:581) with that component's vertices only — **N-3**. -/
   | dupOutputVertexIndex
+  /-- the same index expressions when called from `make_ir_for_query` (mod.rs:302) with the
+  vertices of all components (`collect_ir_vertices`). -/
+  | dupOutputGlobalIndex
   /-- mod.rs:513 `try_collect_unique().unwrap()`. -/
   | vertexCollect
   /-- mod.rs:521/537 `ir_vertices[from_vid]`. -/
